@@ -67,7 +67,10 @@ def unzip_t(path, L):
         return "skip"
     if not L.get("ok") or any(c["method"] not in (0, 8, 12) or c["flags"] & 1 for c in L["cd"]):
         return "skip"
-    p = subprocess.run(["unzip", "-tqq", path], stdout=subprocess.PIPE, stderr=subprocess.STDOUT)
+    try:
+        p = subprocess.run(["unzip", "-tqq", path], stdout=subprocess.PIPE, stderr=subprocess.STDOUT, stdin=subprocess.DEVNULL, timeout=60)
+    except subprocess.TimeoutExpired:
+        return "bad:unzip did not terminate"
     if p.returncode in (0, 1):
         return "ok"
     if p.returncode in (81, 82):
